@@ -15,6 +15,7 @@ CONSTANTS
   MaxFlush = 1
   MaxCrash = 0
   EmitOn = FALSE
+  EmitMod = 1
 INIT MCInit
 NEXT MCNext
 VIEW View
